@@ -323,7 +323,7 @@ func c02Specials(c *core.Ctx) {
 
 // (b) record-state interleavings in CSV mode
 func c02CSVStates(c *core.Ctx) {
-	ops := []string{`x = $1 $3`, `getline`, `getline v`, `getline v < "f.csv"`, `getline < "f.csv"`, `$0 = "p,\"q,r\""`, `NF = 2`, `n = split($0, a); x = a[1]`, `$2 = "z"`, `x = $0; y = NF`, `$5 = "e"`, `sub(/,/, ";")`, `x = @"h1"`, `print; print $1, $2`}
+	ops := []string{`x = $1 $3`, `getline`, `getline v`, `getline v < "f.csv"`, `getline < "f.csv"`, `$0 = "p,\"q,r\""`, `NF = 2`, `n = split($0, a); x = a[1]`, `$2 = "z"`, `x = $0; y = NF`, `$5 = "e"`, `sub(/,/, ";")`, `x = @"h1"`, `print; print $1, $2`, `INPUTMODE = ""`, `INPUTMODE = "tsv"`, `x = $3 $4; $4 = "w"`}
 	os.WriteFile(filepath.Join(c02Dir, "f.csv"), []byte("f1,f2,\"f,3\"\ng1\n"), 0o644)
 	maxLen := 3
 	cfgs := []c02Config{{false, "csv", false}, {true, "csvheader", false}, {false, "tsv", false}}
@@ -336,7 +336,7 @@ func c02CSVStates(c *core.Ctx) {
 				for _, k := range idx {
 					parts = append(parts, ops[k])
 				}
-				src := "{ " + strings.Join(parts, "; ") + "; print NF, $0 }\nEND { " + strings.Join(parts, "; ") + " }"
+				src := "{ " + strings.Join(parts, "; ") + "; print NF, $0, $1, $3, $4; $3 = \"t\"; print }\nEND { " + strings.Join(parts, "; ") + " }"
 				prog, err, pn := awk.Parse(src, nil)
 				if pn != "" {
 					c.Fail("parse-panic", c02Case{Part: "b", Src: src}, firstLine(pn))
